@@ -2,6 +2,8 @@ package lint
 
 import (
 	"fmt"
+	"go/token"
+	"go/types"
 	"sort"
 	"strings"
 
@@ -514,6 +516,78 @@ func runC17(c *Ctx) {
 		}
 	}
 
+	// ---------- R17.13 tables are not edited while they are walked
+	c.Rule("R17.13", "E3", "dependency database / input bookkeeping: a slice is never shortened, extended or re-sliced in place (slices.Delete / DeleteFunc / Insert / append, or an update of the map entry it came from) inside a loop that ranges over that same slice — elements would be skipped or visited twice, leaving stale lookup entries behind", 2)
+
+	mutators := []string{"slices.Delete", "slices.DeleteFunc", "slices.Insert", "slices.Compact", "slices.CompactFunc", "slices.Replace", "builtin.append"}
+
+	for _, rel := range []string{pkgDep, pkgRRuntime, pkgQRuntime} {
+		nLoops, bad := 0, ""
+
+		var badPos token.Pos
+
+		for _, f := range p.PkgFuncs(rel) {
+			// ranged slices: X of an element access whose index is a loop-header join
+			for _, in := range Find(f, func(in ssa.Instruction) bool {
+				switch x := in.(type) {
+				case *ssa.IndexAddr:
+					_, isSlice := x.X.Type().Underlying().(*types.Slice)
+
+					return isLoopIndex(x.Index) && isSlice
+				case *ssa.Index:
+					return isLoopIndex(x.Index)
+				}
+
+				return false
+			}) {
+				var ranged ssa.Value
+
+				switch x := in.(type) {
+				case *ssa.IndexAddr:
+					ranged = x.X
+				case *ssa.Index:
+					ranged = x.X
+				}
+
+				loops := loopsContaining(f, in.Block())
+				if len(loops) == 0 {
+					continue
+				}
+
+				nLoops++
+
+				d := p.DescN(ranged, 5)
+
+				for _, body := range loops {
+					for b := range body {
+						for _, bi := range b.Instrs {
+							switch y := bi.(type) {
+							case *ssa.Call:
+								if GlobAny(mutators, p.CalleeName(y)) && len(y.Call.Args) > 0 && p.DescN(y.Call.Args[0], 5) == d {
+									bad = FuncName(f) + ": " + p.CalleeName(y) + " on " + d + " inside the loop that ranges over it"
+									badPos = y.Pos()
+								}
+							case *ssa.MapUpdate:
+								if lk, ok := Fwd(ranged).(*ssa.Lookup); ok && p.Desc(lk.X) == p.Desc(y.Map) && p.Desc(lk.Index) == p.Desc(y.Key) {
+									bad = FuncName(f) + ": the map entry " + d + " is replaced inside the loop that ranges over its old value"
+									badPos = y.Pos()
+								}
+							}
+						}
+					}
+				}
+			}
+		}
+
+		if nLoops == 0 {
+			c.Unknown("R17.13", rel+" :: no slice is edited in place while it is ranged over", token.NoPos, "anchor-unresolved: no range loop over a slice found in the package")
+
+			continue
+		}
+
+		c.Check(bad == "", "R17.13", rel+" :: no slice is edited in place while it is ranged over", badPos, fmt.Sprintf("%d range loops over slices examined", nLoops), bad)
+	}
+
 }
 
 // StaticOrClosureCalleeOf resolves the function a defer/go/call instruction invokes.
@@ -554,4 +628,19 @@ func dependentsFresh(c *Ctx, rule string) {
 		c.Check(ok, rule, FuncName(f)+" :: returns a fresh slices.Concat(kind-wide lookup, per-ID lookup)", fpos(f), short(d, 120), "returns "+d+" — an internal slice would be mutated under the delivery loop")
 	}
 
+}
+
+// isLoopIndex: the index expression of a range loop (the counter join, or counter+1 in the rotated form).
+func isLoopIndex(v ssa.Value) bool {
+	switch x := v.(type) {
+	case *ssa.Phi:
+		return true
+	case *ssa.BinOp:
+		_, a := x.X.(*ssa.Phi)
+		_, b := x.Y.(*ssa.Phi)
+
+		return a || b
+	}
+
+	return false
 }
